@@ -15,6 +15,7 @@ import (
 	"os"
 	"path/filepath"
 	"regexp"
+	"slices"
 	"sort"
 	"strings"
 	"testing"
@@ -132,6 +133,22 @@ func Bubble(t *testing.T, spec Spec, f func(h *H)) {
 				firstAbort = h.W.Aborted
 			}
 			StepBudgetAborts++
+		}
+	})
+}
+
+// MarkMonitor reports a recovery mark that a mysync process creates for a host which is, at that
+// instant, still a member of the published active-node list (C04: "the list never contains hosts
+// marked for recovery"; SetRecovery evicts first and marks second, so the two never coexist -
+// whatever interrupts it).
+func (h *H) MarkMonitor(report func(host, detail string)) {
+	h.W.OnApply = append(h.W.OnApply, func(ap *sim.Applied) {
+		if !ap.Effect || ap.Call.Kind != "zk" || ap.Call.Op != "create" || !strings.HasPrefix(ap.Call.Target, vns+"/recovery/") {
+			return
+		}
+		host := ap.Call.Target[len(vns+"/recovery/"):]
+		if list := h.ActiveNodes(); slices.Contains(list, host) {
+			report(host, fmt.Sprintf("%s marked %s for recovery while it is a member of the published list %v", ap.Call.Proc, host, list))
 		}
 	})
 }
